@@ -6,7 +6,6 @@ import (
 	"errors"
 	"fmt"
 	"io"
-	"runtime"
 	"sort"
 	"strconv"
 	"strings"
@@ -153,6 +152,7 @@ type action struct {
 	Tag    string
 	// push actions
 	CtxKind   int // 0 background, 1 cancelled by the workload, 2 deadline on the fake clock, 3 already cancelled when invoked
+	ClockFired bool  // kind 2: the deadline expired at a moment the workload did not choose
 	Cause     bool   // kinds 1 and 3: cancelled with a custom cause (the result is context.Canceled all the same)
 	Method    string // method name of the push
 	CancelSeq int // seq at which the workload cancelled / the deadline fired (-1)
@@ -282,9 +282,11 @@ func (w *srvWorld) seq() int { return len(w.r.Sim.Events) }
 func (w *srvWorld) genID(n int) string {
 	g := w.r.Gen
 	if w.cfg.IDPool > 0 {
-		// a small pool so that reuse is frequent; it holds ids that differ only in
-		// their JSON form, which are different ids
-		pool := []string{`1`, `2`, `"1"`, `3`, `1.0`, `"2"`}
+		// a small pool so that reuse is frequent; it holds a number and a string
+		// with the same digits, which are different ids (numbers that are equal in
+		// value but spelt differently, 1 and 1.0, are left out: whether they are
+		// one id is not settled by the property)
+		pool := []string{`1`, `2`, `"1"`, `3`, `"2"`, `4`}
 		n := w.cfg.IDPool
 		if n > len(pool) {
 			n = len(pool)
@@ -730,29 +732,86 @@ func (w *srvWorld) doPush(ctx context.Context, m *member) {
 	}
 }
 
-// LogRequest implements jrpc2.RPCLogger.
+// LogRequest implements jrpc2.RPCLogger. When the library calls it relative to
+// slot acquisition or handler start is its own business: the call is recorded
+// and no rule is based on it.
 func (w *srvWorld) LogRequest(ctx context.Context, req *jrpc2.Request) {
-	if req.Method() == "rpc.serverInfo" {
-		w.r.Ev("log.req", "rpc.serverInfo", w.running, 0, req.ID())
-		if w.running+1 > w.K && w.cfg.Prop == "C06" {
-			w.r.Fail("over-limit", "built-in rpc.serverInfo (id %s) invoked while %d handlers hold all %d slots", req.ID(), w.running, w.K)
+	w.r.Ev("log.req", req.Method(), w.running, 0, req.ID())
+}
+
+// replySeq returns the sequence number at which the server passed to Send the
+// record that answers the request with this (unique) id, -1 if it has not.
+func (w *srvWorld) replySeq(id string) int {
+	if id == "" {
+		return -1
+	}
+	for _, o := range w.out {
+		for _, ob := range o.Objs {
+			if ob.Method == "" && ob.ID == id {
+				return o.Seq
+			}
 		}
-		for _, msg := range w.msgs {
-			for _, m := range msg.Members {
-				if m.Kind == mRPCInfo && m.ID == req.ID() && m.Logged < 0 {
-					m.Logged = w.seq()
-					return
+	}
+	return -1
+}
+
+// repliedWithResult: the request with this id was answered with a result
+// (not with an error, such as a cancellation while it waited for a slot).
+func (w *srvWorld) repliedWithResult(id string) bool {
+	for _, o := range w.out {
+		for _, ob := range o.Objs {
+			if ob.Method == "" && ob.ID == id && ob.HasRes {
+				return true
+			}
+		}
+	}
+	return false
+}
+
+// infoStarted: the built-in rpc.serverInfo has no handler to observe. It has
+// certainly run once its reply is on the wire; inside a batch whose reply is
+// still held back by a sibling it is taken to have started with that sibling.
+func (w *srvWorld) infoStarted(msg *message, m *member) bool {
+	if w.replySeq(m.ID) >= 0 {
+		return true
+	}
+	for _, sib := range msg.Members {
+		if sib != m && sib.Enter >= 0 {
+			return true
+		}
+	}
+	return false
+}
+
+// checkInfoOverLimit (C06, at a quiescent point): all K slots are held by
+// handlers that have been running since T; a single rpc.serverInfo request that
+// arrived after T and has been answered ran while they held every slot.
+func (w *srvWorld) checkInfoOverLimit() {
+	if w.running < w.K {
+		return
+	}
+	w.noteArrivals()
+	t, n := -1, 0
+	for _, msg := range w.msgs {
+		for _, m := range msg.Members {
+			if m.hasHandler() && m.Enter >= 0 && m.Exit < 0 {
+				n++
+				if m.Enter > t {
+					t = m.Enter
 				}
 			}
 		}
+	}
+	if n < w.K {
 		return
 	}
-	var p tagParams
-	req.UnmarshalParams(&p)
-	if m := w.byTag[p.T]; m != nil && m.Logged < 0 {
-		m.Logged = w.seq()
-		if w.running+1 > w.K && w.cfg.Prop == "C06" {
-			w.r.Fail("over-limit", "request %s logged (slot acquired) while %d handlers already hold all %d slots", m.Tag, w.running, w.K)
+	for _, msg := range w.msgs {
+		if len(msg.Members) != 1 || msg.Members[0].Kind != mRPCInfo || msg.Arrive < t {
+			continue
+		}
+		if rs := w.replySeq(msg.Members[0].ID); rs >= 0 && w.repliedWithResult(msg.Members[0].ID) {
+			w.r.Fail("over-limit", "built-in rpc.serverInfo (id %s) arrived at #%d and was answered at #%d while %d handlers, all running since #%d, held all %d slots", msg.Members[0].ID, msg.Arrive, rs, n, t, w.K)
+			return
 		}
 	}
 }
@@ -983,9 +1042,15 @@ func (w *srvWorld) doPushAct(base context.Context, a *action) {
 		if e, ok := err.(*jrpc2.Error); ok {
 			a.Result = "E:" + e.Message
 			a.ErrCode, a.ErrData = int(e.Code), string(e.Data)
-		} else if err != nil && a.Kind == aCallback && err != context.Canceled && err != context.DeadlineExceeded && err != jrpc2.ErrConnClosed && err != jrpc2.ErrPushUnsupported {
+		} else if err != nil && a.Kind == aCallback && err != context.Canceled && err != context.DeadlineExceeded && !errors.Is(err, jrpc2.ErrConnClosed) && !errors.Is(err, jrpc2.ErrPushUnsupported) {
 			a.Result = "X:" + err.Error()
 		}
+	}
+	if a.CtxKind == 2 && a.CancelSeq < 0 && ctx.Err() != nil {
+		// the deadline passed on the fake clock without the workload's doing (the
+		// clock also moves for timers of the library itself)
+		a.ClockFired = true
+		a.CancelSeq, a.CancelEnd = w.seq(), w.seq()
 	}
 	a.Return = w.seq()
 	a.Done = true
@@ -1018,7 +1083,7 @@ func parseOut(o *outRec) {
 			return
 		}
 		var ro respObj
-		ro.ID = string(f["id"])
+		ro.ID = normID(string(f["id"]))
 		json.Unmarshal(f["jsonrpc"], &ro.Version)
 		if v, ok := f["method"]; ok {
 			json.Unmarshal(v, &ro.Method)
@@ -1053,16 +1118,17 @@ func (w *srvWorld) setup() {
 	w.K = 1 + g.Int("K", w.cfg.KMax)
 	w.optK = w.K
 	if w.cfg.BigK && g.Chance("bigk", 0.12) {
-		// a large limit, or the option left unset (one slot per CPU)
+		// a large limit (always set explicitly: what an unset option defaults to
+		// is documented nowhere in the properties)
 		switch g.Int("bigkkind", 3) {
 		case 0:
-			w.K, w.optK = 8+g.Int("bigkval", 9), 0
-			w.optK = w.K
+			w.K = 8 + g.Int("bigkval", 9)
 		case 1:
-			w.K, w.optK = 24, 24
+			w.K = 24
 		case 2:
-			w.K, w.optK = runtime.NumCPU(), 0
+			w.K = 16
 		}
+		w.optK = w.K
 		w.bigK = true
 	}
 	w.push = g.Chance("allowpush", 0.5) || w.cfg.ForcePush
@@ -1316,7 +1382,7 @@ func (w *srvWorld) progressOf(dispatchedOnly bool) string {
 	msgStarted := map[int]bool{}
 	for _, msg := range w.msgs {
 		for _, m := range msg.Members {
-			if m.Enter >= 0 || m.Logged >= 0 {
+			if m.Enter >= 0 || (m.Kind == mRPCInfo && w.replySeq(m.ID) >= 0) {
 				lastStarted = msg.Idx
 				msgStarted[msg.Idx] = true
 			}
@@ -1334,7 +1400,7 @@ func (w *srvWorld) progressOf(dispatchedOnly bool) string {
 			if !m.executable() {
 				continue
 			}
-			started := m.Enter >= 0 || (m.Kind == mRPCInfo && m.Logged >= 0) || w.cancelRequested(m)
+			started := m.Enter >= 0 || (m.Kind == mRPCInfo && w.infoStarted(msg, m)) || w.cancelRequested(m)
 			if dispatchedOnly && msg.Idx > lastStarted {
 				continue
 			}
@@ -1435,7 +1501,7 @@ func (w *srvWorld) checkResp(m *member, o respObj) string {
 					return fmt.Sprintf("%s: error response carries data %q, the handler's error carried %q", m.Tag, o.Data, want)
 				}
 			}
-			if m.Script.Outcome == 7 && !strings.Contains(o.Message, m.Tag) {
+			if m.Script.Outcome == 7 && !strings.Contains(o.Message, m.Tag) && !strings.Contains(o.Data, m.Tag) {
 				return fmt.Sprintf("%s: error response %d %q does not carry the handler's error %q", m.Tag, o.Code, o.Message, m.HErr)
 			}
 			return ""
@@ -1523,16 +1589,40 @@ func (w *srvWorld) checkObservers() {
 			r.Fail("waitstatus-never-returned", "%s: a second caller of WaitStatus/Wait has not returned although the server has ended (status %+v)", o.Name, *w.status)
 			return
 		}
+		sameErr := func(a, b error) bool {
+			// the same report: both nil, or both the channel's error (a status may
+			// be a fresh value per call: joined or wrapped errors)
+			if (a == nil) != (b == nil) {
+				return false
+			}
+			return a == nil || a == b || errors.Is(a, ErrInjected) == errors.Is(b, ErrInjected)
+		}
 		if o.UseErr {
-			if o.Err != w.status.Err {
+			if !sameErr(o.Err, w.status.Err) {
 				r.Fail("wrong-status", "%s: Wait returned %v but WaitStatus reported %+v for the same stop", o.Name, o.Err, *w.status)
 				return
 			}
 			continue
 		}
-		if o.St.Stopped != w.status.Stopped || o.St.Closed != w.status.Closed || o.St.Err != w.status.Err {
+		if o.St.Stopped != w.status.Stopped || o.St.Closed != w.status.Closed || !sameErr(o.St.Err, w.status.Err) {
 			r.Fail("wrong-status", "%s: WaitStatus reported %+v to one caller and %+v to another for the same stop", o.Name, *w.status, o.St)
 			return
 		}
 	}
+}
+
+// normID: ids are compared as JSON values where that is cheap and certain: a
+// string id is decoded and written again the way encoding/json writes it (the
+// workloads generate their string ids in that form), so "\u00e9" and "é" are
+// one id. Numbers keep their text (integers beyond 2^53 must survive exactly).
+func normID(raw string) string {
+	if strings.HasPrefix(raw, `"`) {
+		var v string
+		if json.Unmarshal([]byte(raw), &v) == nil {
+			if b, err := json.Marshal(v); err == nil {
+				return string(b)
+			}
+		}
+	}
+	return raw
 }
